@@ -63,6 +63,9 @@ type ChanPlan struct {
 	SendCtx   [2]int `json:"send_ctx,omitempty"`
 	SendCtxUs [2]int `json:"send_ctx_us,omitempty"`
 	// RecvPoll: the receiver of a side uses ReceiveAsync + ReceiveWait (armed before the poll) instead of Receive
+	// CloseRace: client side, two senders: the second sender keeps sending while the first one's
+	// SendAndClose ends the channel
+	CloseRace bool `json:"close_race,omitempty"`
 	RecvPoll [2]bool `json:"recv_poll,omitempty"`
 	// Unopened: before its real channel the client obtains this many channels from the same endpoint and
 	// frees them without sending anything (a caller that changed its mind, a request that failed to build)
@@ -332,9 +335,13 @@ func (r *flowRun) runChannelClient(cs *chanState, open opener) {
 		return
 	}
 
-	var g, gr group
+	var g, gr, gRace group
 	nData := len(cp.C2S)
 	myEnd, limit := cp.sideEnd(true)
+	// CloseRace: the client's second sender is not joined before the closing SendAndClose: the two calls
+	// race on the same channel (the library serialises them; a Send that loses returns "closed", one that
+	// returns OK has been queued before the close frame and must arrive)
+	race := cp.CloseRace && myEnd == EndClientClose && len(cs.d[0].bySender[1]) > 0 && !cp.CancelSend
 	sctx := async.Context(r.bg)
 	var scancel async.CancelContext
 	if cp.CancelSend && myEnd >= 0 {
@@ -346,7 +353,14 @@ func (r *flowRun) runChannelClient(cs *chanState, open opener) {
 			continue
 		}
 		s := s
-		g.goTask(fmt.Sprintf("ch%d-csend%d", cs.idx, s), func() {
+		grp := &g
+		if s == 1 && race {
+			grp = &gRace
+		}
+		grp.goTask(fmt.Sprintf("ch%d-csend%d", cs.idx, s), func() {
+			if s == 1 && race {
+				hWaitCond("flow.wait-open", func() bool { return cs.d[0].sendDone[0] })
+			}
 			if s == 1 && scancel != nil {
 				// the opening message (sender 0) is never abandoned half-way: a cancelled open would
 				// leave a channel the peer has never heard of
@@ -402,6 +416,7 @@ func (r *flowRun) runChannelClient(cs *chanState, open opener) {
 	if r.plan.Faulty && chConn.Closed().IsSet() && !ctxDoneSoon(chCtx) {
 		simrt.Fail("C09-context-not-cancelled", "channel %d (client side): its connection is closed but the channel context is not cancelled", cs.idx)
 	}
+	gRace.wait("flow.client.join-race")
 	simrt.Logf("ch%d client Free", cs.idx)
 	ch.Free()
 	cs.cliDone = true
@@ -734,7 +749,8 @@ func (r *flowRun) checkComplete(res *simrt.Result) (out []simrt.Violation) {
 				if !ds.got[k] && missing < 0 {
 					missing = k
 				}
-			} else if ds.sendTried[k] && !cp.CancelSend {
+			} else if ds.sendTried[k] && !cp.CancelSend && !(cp.CloseRace && ds.msgs[k].Sender&1 == 1) {
+				// (a second sender racing the closing SendAndClose may lose: "closed" is then the right answer)
 				add("C03-send-failed", "channel %d dir %d: Send #%d by the side that ends the channel returned %s on a healthy connection", cs.idx, dx, k, ds.sendSt[k])
 			}
 		}
